@@ -95,3 +95,85 @@ def lock_discipline(chk, prefix, fields, eng=None, cls_key="state.ExecutionState
                        f"{len(sites)} accesses checked" + (f"; NOT under the lock: {', '.join(f'{fn}:{ln}' for fn, ln in bad)}" if bad else ""),
                   describe=(lambda m: {"unlocked_accesses": [f"{fn}:{ln}" for fn, ln in bad], "schedule": "user thread iterates the map in track_replay while the checkpoint thread merges a response"}) if replay else None,
                   replay=replay, sample=f"lockset of self.{field}: {len(sites)} access sites")
+
+
+def lock_order(chk, name, cls_key="state.ExecutionState", eng=None):
+    """No deadlock through the class's own locks (safety cause of 'a synchronous caller is always released'): the relation 'lock B is acquired while
+    lock A is held' - lexically nested `with self.A: ... with self.B:` blocks, and calls of methods of the class that (transitively) take B made while A
+    is held - has no cycle.  Syntactic, over the AST of the current source (a sufficient condition; re-entrant use of one lock counts as a cycle too,
+    the locks are plain `threading.Lock`s)."""
+    from pyvc.engine import Engine
+    program = (eng or Engine()).program
+    cls = program.cls(cls_key)
+    locks = sorted({a for m in cls.methods.values() for n in ast.walk(m.node) if isinstance(n, ast.With) for it in n.items
+                    for a in [getattr(it.context_expr, "attr", None)] if a and isinstance(it.context_expr, ast.Attribute) and isinstance(it.context_expr.value, ast.Name) and it.context_expr.value.id == "self"})
+    takes, calls_under = {}, {}     # method -> locks taken lexically ; method -> [(held, callee)]
+    edges = set()
+    for mname, m in cls.methods.items():
+        takes[mname] = set()
+        calls_under[mname] = []
+
+        def walk(n, held, mname=mname):
+            if isinstance(n, ast.With):
+                h = list(held)
+                for it in n.items:
+                    e = it.context_expr
+                    if isinstance(e, ast.Attribute) and isinstance(e.value, ast.Name) and e.value.id == "self" and e.attr in locks:
+                        takes[mname].add(e.attr)
+                        for a in h:
+                            edges.add((a, e.attr, f"{mname}:{n.lineno}"))
+                        h.append(e.attr)
+                    else:
+                        walk(e, held)
+                for b in n.body:
+                    walk(b, h)
+                return
+            if isinstance(n, (ast.FunctionDef, ast.Lambda)) and n is not cls.methods[mname].node:
+                for ch in ast.iter_child_nodes(n):
+                    walk(ch, [])
+                return
+            if isinstance(n, ast.Call) and isinstance(n.func, ast.Attribute) and isinstance(n.func.value, ast.Name) and n.func.value.id == "self" and n.func.attr in cls.methods:
+                calls_under[mname].append((tuple(held), n.func.attr, n.lineno))
+            for ch in ast.iter_child_nodes(n):
+                walk(ch, held)
+        walk(m.node, [])
+    # transitive closure of 'method m may take lock L'
+    may = {m_: set(t) for m_, t in takes.items()}
+    changed = True
+    while changed:
+        changed = False
+        for m_, cs in calls_under.items():
+            for _, callee, _ln in cs:
+                new = may.get(callee, set()) - may[m_]
+                if new:
+                    may[m_] |= new
+                    changed = True
+    for m_, cs in calls_under.items():
+        for held, callee, ln in cs:
+            for a in held:
+                for b in may.get(callee, ()):
+                    edges.add((a, b, f"{m_}:{ln} -> {callee}"))
+    graph = {}
+    for a, b, where in edges:
+        graph.setdefault(a, {}).setdefault(b, where)
+    cycle = None
+
+    def dfs(node, path):
+        nonlocal cycle
+        for nxt in graph.get(node, {}):
+            if cycle:
+                return
+            if nxt in path:
+                i = path.index(nxt)
+                cycle = path[i:] + [nxt]
+                return
+            dfs(nxt, path + [nxt])
+    for start in list(graph):
+        if not cycle:
+            dfs(start, [start])
+    chk.function(f"{cls_key} (every method)", "lock order: syntactic check of nested acquisitions (AST, no solver)")
+    desc = (f"the locks of {cls.name} ({', '.join(locks)}) are acquired in an order without cycles: {len(edges)} nested acquisition(s) "
+            + "; ".join(f"{a} then {b} at {w}" for a, d_ in sorted(graph.items()) for b, w in sorted(d_.items())))
+    if cycle:
+        desc += f"; CYCLE: {' -> '.join(cycle)} (two threads taking them in opposite orders block each other for ever: every synchronous checkpoint caller then waits for ever)"
+    chk.prove(name, [], z3.BoolVal(cycle is None), desc=desc, describe=lambda m: {"cycle": cycle}, sample="nested lock acquisitions of the class")
